@@ -208,6 +208,49 @@ def h05b(c, V=2):
             c.ob("no-eligible-trade.no-fill", len(new) == 0)
 
 
+def h05d(c):
+    """two placements batched in one package; the first order is completed while the package is in flight (its runner is removed and the
+    middleware voids it), then the real SimulatedExecution.execute_place handles the package: the second order - fill-or-kill with a
+    symbolic minimum fill against a symbolic level - is still matched by ITS OWN instruction (time in force, minimum fill, price)"""
+    from flumine.events import events
+    with cm.config_set(simulated=True, place_latency=0.0):
+        fl, (client,), (strategy,) = cm.new_sim(strategy_kwargs=dict(max_live_trade_count=10))
+        first_completes = c.choose("first_order_completes_in_flight", [True, False])
+        side = c.choose("side", ["BACK", "LAY"])
+        size = c.cents("size", 1, 1000000)
+        mfs = c.cents("min_fill", 1, 1000000) if c.choose("min_fill_given", [False, True]) else None
+        lvl = c.cents("level_size", 1, 1000000)
+        atb = [{"price": 3.0, "size": lvl}] if side == "BACK" else []
+        atl = [{"price": 3.0, "size": lvl}] if side == "LAY" else []
+        bk0 = cm.book([cm.runner(1, atb=atb, atl=atl), cm.runner(2, adjustment_factor=10.0)], version=7)
+        market = cm.add_market(fl, bk0)
+        fl._market_middleware[0](market)
+        a = cm.mk_limit(strategy, "BACK", 2.0, 5.0, selection_id=2)
+        b = cm.mk_limit(strategy, side, 3.0, size, tif="FILL_OR_KILL", mfs=mfs)
+        with market.transaction() as t:
+            t.place_order(a, force=True)
+            t.place_order(b, force=True)
+        assert len(fl.handler_queue) == 1
+        pkg = fl.handler_queue.pop()
+        if first_completes:
+            bk1 = cm.book([cm.runner(1, atb=atb, atl=atl), cm.runner(2, status="REMOVED", adjustment_factor=10.0)], version=7, pt_ms=cm.T0_MS + 50)
+            with c.guard("removal"):
+                market(bk1)
+                fl._market_middleware[0](market)
+                fl._process_simulated_orders(market)
+            c.cover("first-completed-in-flight")
+        with c.guard("execute_place"):
+            client.execution.handler(pkg)
+        sim = b.simulated
+        need = mfs if mfs is not None else size
+        c.ob("fok.all-or-nothing", c.Or(sim.size_matched == 0, sim.size_matched >= need))
+        c.ob("fok.never-rests", sim.size_remaining == 0)
+        c.ob("fok.within-level", sim.size_matched <= lvl)
+        c.ob("conservation", sim.size_matched + sim.size_remaining + sim.size_cancelled + sim.size_lapsed + sim.size_voided == size)
+        c.ob("fok.has-bet-id-or-failed", b.bet_id is not None or b.status == OrderStatus.EXECUTION_COMPLETE)
+        c.cover("batched")
+
+
 CS_Q = dict(order=[2.0, 5.0], level=[1.0, 3.0, 7.0])
 CS_T = dict(order=[0.03, 2.0, 5.0, 11.0], level=[0.01, 1.0, 3.0, 7.0])
 HARNESSES = [
@@ -218,6 +261,7 @@ HARNESSES = [
     Harness("H05c", h05a, quick=dict(L=2, vwap="only", concrete_sizes=CS_Q), thorough=dict(L=3, vwap="only", concrete_sizes=CS_T),
             pattern="P1 kernel-with-oracle", requires=["fok-fill", "fok-kill", "multi-level-fill"],
             outside=["VWAP sweep with order/level sizes outside the listed concrete sets (prices: every 2dp value, symbolic)"]),
+    Harness("H05d", h05d, pattern="P5 (order completed in flight) + P1", requires=["batched", "first-completed-in-flight"]),
     Harness("H05b", h05b, quick=dict(V=2), thorough=dict(V=3), pattern="P2 inductive step", requires=["passive-fill", "no-eligible-trade", "available-fill"],
             outside=["traded ladders with more than V price points per update (prices concrete: 1.5, 2.0, 3.0)"]),
 ]
